@@ -192,7 +192,7 @@ fn get_integer(buf: &mut Cursor<&[u8]>) -> Result<i64, Error> {
     // using if clause improves performance over multiplying with the sign value
     let num = if is_positive {
         // parse unchecked
-        while idx != end && idx != max_safe_digits {
+        while idx < end && idx - start < max_safe_digits {
             match ascii_to_i64(buf.get_ref()[idx]) {
                 Some(n) => num = num * 10 + n,
                 None => break,
@@ -201,7 +201,7 @@ fn get_integer(buf: &mut Cursor<&[u8]>) -> Result<i64, Error> {
         }
         // parse checked
         let mut num = Some(num);
-        while idx != end {
+        while idx < end {
             match ascii_to_i64(buf.get_ref()[idx]) {
                 Some(n) => {
                     num = num
@@ -215,7 +215,7 @@ fn get_integer(buf: &mut Cursor<&[u8]>) -> Result<i64, Error> {
         num
     } else {
         // parse unchecked
-        while idx != end && idx != max_safe_digits {
+        while idx < end && idx - start < max_safe_digits {
             match ascii_to_i64(buf.get_ref()[idx]) {
                 Some(n) => num = num * 10 - n,
                 None => break,
@@ -224,7 +224,7 @@ fn get_integer(buf: &mut Cursor<&[u8]>) -> Result<i64, Error> {
         }
         // parse checked
         let mut num = Some(num);
-        while idx != end {
+        while idx < end {
             match ascii_to_i64(buf.get_ref()[idx]) {
                 Some(n) => {
                     num = num
@@ -238,7 +238,7 @@ fn get_integer(buf: &mut Cursor<&[u8]>) -> Result<i64, Error> {
         num
     };
 
-    if idx == end {
+    if idx >= end {
         return Err(Error::Incomplete);
     }
     if idx == start || buf.get_ref()[idx] != b'\r' {
